@@ -38,7 +38,7 @@ def collect(props):
         prop = m.get("property")
         patch = os.path.join(os.path.dirname(meta), "patch.diff")
         if prop in props and os.path.exists(patch):
-            items.append((prop, "seeded/" + os.path.basename(os.path.dirname(meta)) + ("~out-of-reach" if m.get("out_of_reach") else ""), patch))
+            items.append((prop, "seeded/" + os.path.basename(os.path.dirname(meta)) + ("~out-of-reach" if m.get("out_of_reach") else "~neutralised-by-fix" if m.get("neutralised_by") else ""), patch))
     return items
 
 
@@ -64,7 +64,11 @@ def run_one(prop, name, patch, repo="/repo", runs=None, tier="quick"):
 
 def run(props, only=None):
     items = collect(props)
-    if only:
+    if only and only.startswith("every:"):
+        # regression sample: every N-th item (offset K) of the whole list, "every:N:K"
+        _, n_, k_ = only.split(":")
+        items = [it for j, it in enumerate(items) if j % int(n_) == int(k_)]
+    elif only:
         items = [i for i in items if only in i[1]]
     ok = True
     rows = []
@@ -72,7 +76,7 @@ def run(props, only=None):
         res = run_one(prop, name, patch)
         rows.append(res)
         print("sensitivity %-4s %-48s %-14s %s %ss" % (prop, name, res["status"], ",".join(res.get("invariants", [])), res.get("wall_s", "")))
-        if res["status"] != "caught" and not name.endswith("~out-of-reach"):
+        if res["status"] != "caught" and not name.endswith(("~out-of-reach", "~neutralised-by-fix")):
             ok = False
             print("    " + (res.get("detail") or res.get("tail") or "").replace("\n", "\n    "))
     out = os.path.join(VERIF, "evidence", "sensitivity.json")
